@@ -271,25 +271,27 @@ func c16CheckDoc(rec, sup *verifRun, d c16Doc, text []byte, parse func([]byte) m
 	for _, s := range d.suppliers {
 		table[s.code] = s.name
 	}
-	// Shape of the listing for the suppliers clause, decided once per listing:
-	// which code letters come back wrong anywhere in it?
-	wrong, right := map[byte]bool{}, map[byte]bool{}
-	for _, r := range d.recs {
-		g := got[r.name].CommercialAvailability
-		for k := 0; k < len(r.letters); k++ {
-			if k < len(g) && g[k] == table[r.letters[k]] {
-				right[r.letters[k]] = true
-			} else {
-				wrong[r.letters[k]] = true
-			}
+	// Shape of a failing listing for the suppliers clause, decided once per
+	// listing by re-parsing variants of it: does the failure go away (for some
+	// letter) when the table is indented with a tab instead of blanks, or when
+	// another supplier line is put in front of the first one?
+	var supClasses []string
+	if w0 := c16Wrong(d, got); len(w0) > 0 {
+		tabbed, shifted, both := d, d, d
+		tabbed.indent = "\t"
+		dummy := c16Supplier{c16UnusedCode(d), "Placeholder Supplier (1/00)"}
+		shifted.suppliers = append([]c16Supplier{dummy}, d.suppliers...)
+		both.indent, both.suppliers = "\t", shifted.suppliers
+		w1, w2, w3 := c16WrongIn(tabbed), c16WrongIn(shifted), c16WrongIn(both)
+		if strings.HasPrefix(d.indent, " ") && (c16Fewer(w1, w0) || c16Fewer(w3, w2)) {
+			supClasses = append(supClasses, "space-indented-table")
 		}
-	}
-	supClass := "supplier-differs"
-	switch {
-	case len(wrong) == 1 && len(d.suppliers) > 0 && wrong[d.suppliers[0].code] && (len(right) > 0 || !strings.HasPrefix(d.indent, " ")):
-		supClass = "first-supplier-of-table" // every other letter of the listing decodes correctly
-	case strings.HasPrefix(d.indent, " "):
-		supClass = "space-indented-table"
+		if c16Fewer(w2, w0) || c16Fewer(w3, w1) {
+			supClasses = append(supClasses, "first-supplier-of-table")
+		}
+		if len(supClasses) == 0 {
+			supClasses = []string{"supplier-differs"}
+		}
 	}
 	for i := range d.recs {
 		r := &d.recs[i]
@@ -328,11 +330,64 @@ func c16CheckDoc(rec, sup *verifRun, d c16Doc, text []byte, parse func([]byte) m
 			continue
 		}
 		if !reflect.DeepEqual(g.CommercialAvailability, want) {
-			cl := supClass
-			sup.Fail(cl, c16Describe(d, r), fmt.Sprintf("<7>%s decoded to %q, want %q", r.letters, g.CommercialAvailability, want))
+			for _, cl := range supClasses {
+				sup.Fail(cl, c16Describe(d, r), fmt.Sprintf("<7>%s decoded to %q, want %q", r.letters, g.CommercialAvailability, want))
+			}
 		}
 	}
 	return got
+}
+
+// c16Wrong returns the code letters of d that got decodes wrongly somewhere.
+func c16Wrong(d c16Doc, got map[string]Enzyme) map[byte]bool {
+	table := map[byte]string{}
+	for _, s := range d.suppliers {
+		table[s.code] = s.name
+	}
+	wrong := map[byte]bool{}
+	for _, r := range d.recs {
+		g := got[r.name].CommercialAvailability
+		for k := 0; k < len(r.letters); k++ {
+			if len(g) != len(r.letters) || g[k] != table[r.letters[k]] {
+				wrong[r.letters[k]] = true
+			}
+		}
+	}
+	return wrong
+}
+
+// c16WrongIn parses a variant of a listing and returns its wrong letters (all
+// of them if Parse panics).
+func c16WrongIn(d c16Doc) (wrong map[byte]bool) {
+	defer func() {
+		if recover() != nil {
+			wrong = c16Wrong(d, map[string]Enzyme{})
+		}
+	}()
+	return c16Wrong(d, Parse(c16Write(d)))
+}
+
+// c16Fewer reports whether a is a proper subset of b.
+func c16Fewer(a, b map[byte]bool) bool {
+	for k := range a {
+		if !b[k] {
+			return false
+		}
+	}
+	return len(a) < len(b)
+}
+
+func c16UnusedCode(d c16Doc) byte {
+	used := map[byte]bool{}
+	for _, s := range d.suppliers {
+		used[s.code] = true
+	}
+	for c := byte('A'); c <= 'Z'; c++ {
+		if !used[c] {
+			return c
+		}
+	}
+	return '0'
 }
 
 func c16SameEnzyme(a, b Enzyme) bool {
